@@ -27,7 +27,7 @@ import (
 func op(kind, key string) txnh.Op { return txnh.Op{Kind: kind, Key: key} }
 
 func monitor(s *txnh.TxnScenario, x *sched.Exec) []sched.Violation {
-	return txnh.Monitor(s.H, s.W.Log(), s.W.TSOs())
+	return txnh.Monitor(s.H, s.W.Log(), s.W.TSOs(), s.W.Ticks()...)
 }
 
 func main() {
@@ -138,6 +138,42 @@ func main() {
 						hbF = 3
 					}
 					add(name, sched.Bounds{P: 0, F: hbF, Horizon: 300, EarlyTimers: false, Tickers: true, TickerMatch: "keepAlive"}, mk)
+				}
+			}
+			// (4b) heart-beats of pessimistic transactions whose primary is chosen anew: the first locking
+			// call locks nothing (lock-only-if-exists on an absent key / an insert that meets an existing
+			// key), a later call picks the real primary
+			if m.Pessimistic {
+				for _, lo := range common.Layouts(run.Thorough()) {
+					bk, m, lo := bk, m, lo
+					type rp struct {
+						name string
+						ops  []txnh.Op
+						seed []string
+					}
+					for _, p := range []rp{
+						{"P:lockrv-only-if-exists(c:absent);lock(b);set(b)", []txnh.Op{{Kind: "lockrv", Key: "c", OnlyExist: true}, op("lock", "b"), op("set", "b"), commit}, nil},
+						{"P:insert(a:exists);lock(a);lock(b);rollback", []txnh.Op{op("insert", "a"), op("lock", "a"), op("lock", "b"), {Kind: "rollback"}}, []string{"a", "base"}},
+					} {
+						p := p
+						name := fmt.Sprintf("%s/%s/%s/%s/heartbeat", bk.Name, lo.Name, m, p.name)
+						mk := func() *txnh.TxnScenario {
+							sc := &txnh.TxnScenario{ID: name, NewBackend: func() txnh.Backend { return bk.New(lo.Splits) }, Keys: keys,
+								Progs: [][]txnh.Program{{{Mode: m, Ops: p.ops, KeepGoing: true}}}, CheckFn: monitor}
+							sc.SetupFn = func(s *txnh.TxnScenario) {
+								failpoint.Disable("tikvclient/twoPCRequestBatchSizeLimit")
+								if len(p.seed) > 0 {
+									common.SeedKey(s, p.seed...)
+								}
+							}
+							return sc
+						}
+						hbF := 2
+						if run.Thorough() {
+							hbF = 3
+						}
+						add(name, sched.Bounds{P: 0, F: hbF, Horizon: 300, EarlyTimers: false, Tickers: true, TickerMatch: "keepAlive"}, mk)
+					}
 				}
 			}
 			// (1) program pairs
